@@ -302,6 +302,40 @@ def discharge(obligations, timeout_ms=30000, use_cvc5=True, jobs=None):
                 ob.model = m
 
 
+def _model_via_ack(fs, timeout_ms=20000):
+    """A model of the quantifier-free formulas ``fs``: solve the Ackermannised set (plain arithmetic, where z3 is
+    strong), pin every value it gives to a scalar constant or a read A[t], and let z3 complete the model of the original
+    formulas with those pins.  None if no model is found."""
+    direct = _api_model(fs, min(int(timeout_ms), 5000))
+    if direct is not None:
+        return direct
+    subs = []
+    try:
+        afs = ackermannize(fs, subs_out=subs)
+    except z3.Z3Exception:
+        return None
+    sv = z3.Solver()
+    sv.set("timeout", int(timeout_ms))
+    for f in afs:
+        sv.add(f)
+    if sv.check() != z3.sat:
+        return None
+    ma = sv.model()
+    back = dict((c.decl().name(), sel) for sel, c in subs)
+    pins = []
+    for d in ma.decls():
+        if d.arity() != 0:
+            continue
+        v = ma[d]
+        if v is None or z3.is_array(v):
+            continue
+        c = d()
+        if c.sort().kind() not in (z3.Z3_INT_SORT, z3.Z3_REAL_SORT, z3.Z3_BOOL_SORT):
+            continue
+        pins.append((back.get(d.name(), c)) == v)
+    return _api_model(list(fs) + pins, timeout_ms)
+
+
 def candidate_model(ob, timeout_ms=20000):
     """An UNVALIDATED model of the ground-instantiated weakening of an undecided obligation: only a candidate input
     for a native replay (which alone decides whether it is a counterexample)."""
@@ -318,11 +352,7 @@ def candidate_model(ob, timeout_ms=20000):
         return None
     if not inst:
         return None
-    s = z3.Solver()
-    s.set("timeout", int(timeout_ms))
-    for f in inst:
-        s.add(f)
-    return s.model() if s.check() == z3.sat else None
+    return _model_via_ack(inst, timeout_ms)
 
 
 def confirm_candidate(ob, timeout_ms=20000):
@@ -343,13 +373,9 @@ def confirm_candidate(ob, timeout_ms=20000):
         return None
     if not inst:
         return None
-    s = z3.Solver()
-    s.set("timeout", int(timeout_ms))
-    for f in inst:
-        s.add(f)
-    if s.check() != z3.sat:
+    m = _model_via_ack(inst, timeout_ms)
+    if m is None:
         return None
-    m = s.model()
     for f in fs:
         if not any(z3.is_quantifier(e) for e in _walk([f])):
             v = m.eval(f, model_completion=True)
@@ -371,7 +397,7 @@ def confirm_candidate(ob, timeout_ms=20000):
     return m
 
 
-def cegar(formulas, rounds=60, budget_s=40.0, timeout_ms=10000):
+def cegar(formulas, rounds=60, budget_s=40.0, timeout_ms=10000, int_bound=None):
     """Counterexample-guided instantiation (model finding for a query with universally quantified hypotheses).
     NNF + skolemisation, every formula prenexed to  forall cs. body  (body quantifier free); then repeat:
       M := a model of the ground formulas and the instances collected so far;
@@ -428,6 +454,16 @@ def cegar(formulas, rounds=60, budget_s=40.0, timeout_ms=10000):
     if not quants:
         return "unknown", None
     # seed: the pattern-guided ground instances (cheap, and usually almost enough)
+    if int_bound is not None:
+        # search for a SMALL model: every integer constant within [-int_bound, int_bound] (sizes, indices, references).
+        # Only a ``sat`` answer of such a restricted search means anything.
+        seen_c = {}
+        for e in _walk(ground + [b for _, b in quants]):
+            if z3.is_const(e) and e.decl().kind() == z3.Z3_OP_UNINTERPRETED and e.sort().kind() == z3.Z3_INT_SORT \
+                    and not e.decl().name().startswith("cg!"):
+                seen_c[e.get_id()] = e
+        for e in seen_c.values():
+            ground.append(z3.And(e >= -int_bound, e <= int_bound))
     if os.environ.get("VERIF_CEGAR_SEED"):
         try:
             seed = instantiate_quantifiers(formulas, budget_s=5.0)
@@ -435,6 +471,7 @@ def cegar(formulas, rounds=60, budget_s=40.0, timeout_ms=10000):
                 ground = ground + [f for f in seed if not has_q(f)]
         except z3.Z3Exception:
             pass
+    done_points = set()
     for rnd in range(rounds):
         if time.time() - t_start > budget_s:
             return "unknown", None
@@ -446,9 +483,10 @@ def cegar(formulas, rounds=60, budget_s=40.0, timeout_ms=10000):
         if rr != z3.sat:
             if os.environ.get("VERIF_CEGAR_DEBUG"):
                 sys.stderr.write("cegar: ground set %s after %d formulas\n" % (rr, len(ground)))
-            return ("unsat", None) if rr == z3.unsat else ("unknown", None)
+            return ("unsat", None) if (rr == z3.unsat and int_bound is None) else ("unknown", None)
         m = s.model()
         added = False
+        new_points = set()
         for cs, body in quants:
             # evaluate the body under M with cs kept symbolic (as de Bruijn variables during evaluation)
             vars_ = [z3.Var(i, c.sort()) for i, c in enumerate(cs)]
